@@ -266,3 +266,26 @@ for _pid, (_ths, _txt) in MISC.items():
     _c["theorems"] = list(_c["theorems"]) + _ths
     _c["suites"] = list(_c["suites"]) + [("misc", 3000, 40000)]
     _c["level_text"] += _txt
+
+# The JSON codec of the `filter` URL parameter, inside the model since session 3
+# (Model/FilterJson.lean: Filter.UnmarshalJSON on the parsed tree with encoding/json's struct
+# decoding rules, json.Marshal of a Filter, the label's string body; Props/C08F.lean): the
+# codec laws C08's re-parse theorem assumed (CodecLaws) are now theorems about that model
+# (C08F_real_codecs) and the re-parse theorem is restated with the real codecs (C08F_reparse_real).
+_c = PROPS["C08"]
+_c["modules"] = list(_c.get("modules", ["C08"])) + ["C08F"]
+_c["theorems"] = list(_c["theorems"]) + ["C08F_numCanon_id", "C08F_label_rt", "C08F_label_rt_valid", "C08F_label_ne", "C08F_filter_tree",
+    "C08F_filter_idem", "C08F_canon_head", "C08F_filter_wf", "C08F_real_codecs", "C08F_real_codecs_id", "C08F_reparse",
+    "C08F_label_rt_invalid_counterexample", "C08F_go_codecs", "C08F_parsed_filter", "C08F_reparse_real"]
+_c["suites"] = list(_c["suites"]) + [("filterjson", 4000, 40000)]
+_c["level_text"] += (" The filter parameter's JSON codec is modelled (Model/FilterJson.lean): Filter.UnmarshalJSON on the parsed tree - "
+    "case-insensitive member lookup, later duplicates overwrite, null is a no-op on the string members, `v` kept raw, and/or values decoded as a list of "
+    "filters with nil elements for null, other values decoded as `any` (objects with sorted, last-wins keys; numbers through float64, whose printing is a "
+    "parameter numCanon with the two laws NumCanonLaws) - and json.Marshal of the result; the canonical text of any accepted filter text is a fixed point "
+    "of decode-then-encode and the decoded tree is recovered from it (C08F_filter_idem, C08F_filter_tree), a label is recovered from its JSON string body "
+    "(C08F_label_rt; for Go's writer on well-formed UTF-8: C08F_label_rt_valid, refuted beyond: C08F_label_rt_invalid_counterexample), so the laws "
+    "C08_reparse assumed hold for the modelled codecs (C08F_real_codecs) and the re-parse theorem is restated with them (C08F_reparse_real). Suite "
+    "`filterjson` compares the model with the real json.Unmarshal/json.Marshal on generated filter texts (nested and/or, every JSON value kind, duplicate "
+    "and case-variant keys, unknown members, null elements, malformed texts) and labels.")
+_c["level_note"] += (" The filter codec model reads compact JSON (no white space between tokens, no surrogate escapes, well-formed UTF-8): the generator "
+    "stays inside; float64 printing is a parameter (identity on canonical integers up to 2^53 in the driver).")
